@@ -5,11 +5,11 @@ CONSTANTS
   PartPool <- MCPartPool
   EnvPool <- MCEnvPool
   LimitsOf <- MCLimitsOf
-  Sizes <- MCSizes
-  RDelims <- MCRDelims
+  Sizes <- QSizes
+  RDelims <- QRDelims
   MaxParts = 2
   MaxOps = 1
-  ContentSel = {1, 4, 6, 7, 10}
+  ContentSel = {1, 6, 7, 10}
   ProfileSel = {1, 3}
   UseJson = TRUE
   BoundarySel = {1, 2}
